@@ -9,7 +9,16 @@ compared with the Lean semantic model (`Model/Models.lean` on Float, Driver/C05.
 property oracle (range, sum to one, zero when unavailable, shift invariance, log versions,
 irrelevance of unavailable alternatives) is applied directly to the real outputs.
 
-This module also holds the generators / adapters shared with C06 (same model file).
+Round 3: (1) three-way tie — every expression of the main streams is observed at the boundary to the C++
+engine (`lib/leanrun.py`), its real signature text is run by the proved engine model (Driver/Formula.lean)
+and compared with the real engine and with the semantic model (class `Tie`, `engine_vs_text`,
+`text_vs_model`); the four public `ln G_i` builders are tied the same way as entry points of their own;
+(2) the call level of the model (Model/ModelsBuild.lean, driver op `call`): the two dictionaries in their
+own insertion orders, look-ups by key, `None`, the audit of the key sets; (3) new streams: written forms of
+the availabilities, one-alternative nests, endogenous sampling, forms of the ordered threshold, key sets.
+
+This module also holds the generators / adapters shared with C06 (same model file): `gen_case`, `mk_av`,
+`real_values`, `model_requests`, `compare_model` keep their signatures (new arguments are optional).
 """
 
 from __future__ import annotations
@@ -17,8 +26,10 @@ from __future__ import annotations
 import copy
 import math
 
-from lib import core
+from lib import core, leanrun
 from lib.core import Result, f2b, b2f
+
+EXTRA_MODULES = list(leanrun.MODULES)
 
 READY = True
 MANIFEST = dict(
@@ -35,7 +46,20 @@ MANIFEST = dict(
     'ordered_logit/ordered_probit, tuple and object nest syntax, numeric and Beta parameters) evaluated by the real engine for every alternative on database rows, '
     'plus the property oracle on the real outputs (range, sum, zero-if-unavailable, shift, log versions, dropped-unavailable relation); structures with 3-5 nests '
     '(valid, an alternative shared by any two nests, a member outside the choice set) asked in every / 8 listing orders through the four nested and four cross-nested entry points, '
-    'check_partition / check_intersection and the three ln G_i builders: same outcome and same values in every order, overlaps refused.',
+    'check_partition / check_intersection and the three ln G_i builders: same outcome and same values in every order, overlaps refused. '
+    'Round 3 — the call level (Model/ModelsBuild.lean): the kernel as the library builds it from the two Python dictionaries (LogLogit.__init__ / get_signature: one triple per key of util, '
+    'availability looked up BY KEY, None = all ones; the _bioLogLogitFullChoiceSet branch of models.logit / loglogit / logmev; the audit of the key sets that precedes every evaluation) is proved equal to '
+    'the semantic kernel on the functions the dictionaries denote (logit_call, logit_call_none, logit_evaluated), independent of the insertion order of the availability dictionary for logit, MEV and MEV with '
+    'endogenous sampling on any NumOps (availability_order_irrelevant), a missing key is never defaulted (availability_key_missing); logmev_endogenous_sampling / mev_endogenous_sampling are distributions with '
+    'log version = log of the probability version for arbitrary ln G_i and corrections, and reduce to MEV for no / a constant correction (mev_es_distribution, mev_es_neutral_correction); a nest with exactly one '
+    'alternative gives the ln G_i of an alternative left alone, with and without scale (singleton_nest_is_alone); an object that passed the constructor always passes check_union / check_validity '
+    '(validity_after_constructor); ordered_likelihood refuses a threshold that is not a Beta (ordered_call_defined). '
+    'Three-way tie (harness/lib/leanrun.py): for every configuration of the main streams the expression the library built is observed at the boundary to the C++ engine, its REAL signature text is read and '
+    'evaluated by the proved engine model (Driver/Formula.lean; C01.engine_reads_text / engine_correct) and compared with the real engine and with the semantic model — the formula built by models.* is tied to '
+    'the semantic model without trusting the C++ engine (tallies "three-way" / "leanrun" of the evidence). New streams: availabilities written as int / float / bool / Numeric / constant expression / Variable / '
+    'comparisons and products of a column, availability dictionaries in another key order, with extra or missing keys (refused), one-alternative nests (split off a nest, or an alone alternative in a nest of its own, nested and '
+    'cross-nested), logmev_endogenous_sampling / mev_endogenous_sampling (any / zero / constant correction, availability None or dict; relation P_ES_i ∝ P_i exp(w_i) on the real outputs), ordered thresholds as free / fixed / '
+    'bounded Beta under several names and as number / Numeric / Variable / expression (refused).',
     design='DESIGN.md §5 C05',
     technique='Lean 4 theorems over an executable semantic model (NumOps: Float driver / real proofs) + differential correspondence with the real engine + property oracle on real outputs',
     note='Trusted: real vs IEEE arithmetic (overflow of exp not modelled; the engine shifts utilities, the model does not), the engine evaluation of the expression trees. '
@@ -46,7 +70,11 @@ MANIFEST = dict(
 TRUSTED = [
     'real arithmetic vs IEEE doubles: theorems over the reals, comparison with tolerance 1e-9; overflow of exp is not modelled (the engine subtracts a shift, the model does not)',
     'cythonbiogeme evaluates the expression trees built by biogeme.models.* (modelled at the semantic level: Times with a zero factor, pow, logzero, lazily read utilities)',
-    'Phi: Mathlib cdf of gaussianReal 0 1 (monotone, in [0,1]); the Float driver uses an erfc series (|error| < 1e-15)',
+    'Phi: Mathlib cdf of gaussianReal 0 1 (monotone, in [0,1]); the Float driver uses an erfc series (|error| < 1e-15); the compiled engine (cythonbiogeme bioNormalCdf.cc, outside the repository) '
+    'returns 1 + Q(x) instead of 1 - Q(x) for x >= 6 (at most 9.87e-10 above 1): ordered_probit probabilities are range-checked up to the tolerance 1e-9 (ordered_logit up to 1e-12)',
+    'three-way tie: the proved engine model (Model/Engine.lean, Model/Sig.lean; theorems of C01) replaces the C++ engine as the evaluator of the library-built text; the shared engine model multiplies '
+    'IEEE-wise where bioExprTimes returns 0 for a zero factor: 0*inf inside a cross-nested term (explicit zero allocation next to an empty nest sum) is NaN there and is tallied, not compared',
+    'the call-level model reads a dictionary as a list of (label, value) with distinct labels (a Python dict); isinstance(tau_parameter, Beta) is an input bit of orderedCall',
 ]
 ASSUMPTIONS = [
     'at least one alternative is available (sum to one); alpha >= 0, availability values >= 0, mu > 0, mu_m > 0 and every available alternative has a positive alpha in some nest (cnl-mu shift invariance)',
@@ -55,11 +83,14 @@ ASSUMPTIONS = [
 RULE = (
     'a configuration = family x alternatives (2-7, non-contiguous labels) x utilities x availability x nest structure x parameters, evaluated for every alternative on 1-3 rows; '
     'non-trivial = at least one unavailable alternative, or a nest with mu_m != 1 and >= 2 members, or an overlapping nest, or >= 3 ordered values; '
-    'nest-order stream: a configuration = one structure with >= 3 nests (counted once, asked in all its listing orders up to 3 nests, 8 orders beyond), always non-trivial'
+    'nest-order stream: a configuration = one structure with >= 3 nests (counted once, asked in all its listing orders up to 3 nests, 8 orders beyond), always non-trivial; '
+    'round 3: the written form of every availability, the key order of the availability dict, one-alternative nests, the correction terms (family meves) and the form / name of the ordered threshold are part of the configuration; '
+    'availability-key stream (extra / missing key) always non-trivial'
 )
 
 TOL = 1e-9
 FAMILIES = ['logit', 'mev', 'nested', 'nestedmu', 'cnl', 'cnlmu']
+FAMILIES_R3 = FAMILIES + ['meves']
 ORDERED = ['ordered_logit', 'ordered_probit']
 
 W_PY_UNAVAIL = 'LogLogit.get_value (Python evaluation path), chosen alternative unavailable'
@@ -220,8 +251,16 @@ def gen_case(rng, family, k=None):
         order = list(alts)
         rng.shuffle(order)
         case['av_order'] = order
-    if family == 'mev':
+    if family in ('mev', 'meves'):
         case['logG'] = [gen_util(rng, f'g{a}', ncols) for a in alts]
+    if family == 'meves':
+        mode = rng.choice(['any', 'any', 'any', 'zero', 'constant'])
+        if mode == 'any':
+            case['corr'] = [gen_util(rng, f'w{a}', ncols) for a in alts]
+        else:
+            c0 = 0.0 if mode == 'zero' else dyadic(rng, -2, 2)
+            case['corr'] = [{'k': 'num', 'c': c0} for _ in alts]
+        case['corr_mode'] = mode
     if family in ('nested', 'nestedmu'):
         case['nests'] = gen_nested_nests(rng, alts)
     if family in ('cnl', 'cnlmu'):
@@ -231,13 +270,60 @@ def gen_case(rng, family, k=None):
     return case
 
 
+def add_singleton_nest(rng, case):
+    """a nest with exactly one alternative (a legitimate partition cell; not the same object as an
+    alternative left alone): split a member off a larger nest, or put an alone alternative in its own nest"""
+    n = case['nests']
+    cnl = case['family'] in ('cnl', 'cnlmu')
+    members = {x for m in n['list'] for x in nest_members(m)}
+    alone = [a for a in case['alts'] if a not in members]
+    big = [m for m in n['list'] if len(nest_members(m)) >= 2]
+    mu = gen_param(rng, 1, 5, f"mu_s{len(n['list'])}")
+    if cnl:
+        a = rng.choice(alone) if alone and rng.random() < 0.6 else rng.choice(case['alts'])
+        new = {'mu': mu, 'alphas': [[a, dyadic(rng, 0.0625, 1), rng.choice(['num', 'num', 'beta'])]]}
+    elif alone and (not big or rng.random() < 0.5):
+        new = {'mu': mu, 'alts': [rng.choice(alone)]}
+    elif big:
+        m = rng.choice(big)
+        new = {'mu': mu, 'alts': [m['alts'].pop(rng.randrange(len(m['alts'])))]}
+    else:
+        return False
+    n['list'].insert(rng.randint(0, len(n['list'])), new)
+    return True
+
+
+def decorate(rng, case):
+    """round 3: availabilities in every written form (plain int / float / bool, Numeric, constant
+    expression, Variable, comparisons / products of a 0/1 column); one-alternative nests"""
+    if case.get('av') is not None:
+        plain = all(sp['k'] == 'num' for sp in case['av']) and rng.random() < 0.6
+        for sp in case['av']:
+            if sp['k'] == 'num':
+                sp['form'] = rng.choice(['int', 'float', 'bool']) if plain else rng.choice(AV_NUM_FORMS)
+            else:
+                sp['form'] = rng.choice(AV_COL_FORMS)
+    if case.get('nests') and case['nests'].get('syntax') and rng.random() < 0.4:
+        if add_singleton_nest(rng, case):
+            case['singleton'] = True
+    return case
+
+
+def gen_case3(rng, family, k=None):
+    return decorate(rng, gen_case(rng, family, k))
+
+
+TAU_FORMS_BETA = ['beta_free', 'beta_fixed', 'beta_bounds']
+TAU_FORMS_OTHER = ['float', 'numeric', 'variable', 'expr']
+
+
 def gen_ordered(rng, family):
     n = rng.choice([2, 2, 3, 3, 4, 5, 6])
     labels = sorted(rng.sample(range(-3, 30), n))
     if rng.random() < 0.3:
         rng.shuffle(labels)
     rows = rng.randint(1, 3)
-    return {
+    case = {
         'family': family,
         'labels': labels,
         'rows': rows,
@@ -246,6 +332,10 @@ def gen_ordered(rng, family):
         'tau': dyadic(rng, -2, 2),
         'diffs': [[l, 0.0 if rng.random() < 0.1 else dyadic(rng, 0, 3)] for l in labels[1:-1]],
     }
+    u = rng.random()
+    case['tau_form'] = 'beta_free' if u < 0.5 else rng.choice(TAU_FORMS_BETA) if u < 0.85 else rng.choice(TAU_FORMS_OTHER)
+    case['tau_name'] = rng.choice(['tau', 'tau', 'tau1', 't_2', 'B_TAU'])
+    return case
 
 
 # --------------------------------------------------------------------------- numeric view of a case
@@ -289,14 +379,27 @@ def nests_json(case):
 
 
 def model_requests(case, shift=0.0):
+    """one request per row.  logit / mev / meves go through the call level of the model (`call`: the two
+    dictionaries in their own insertion orders, look-ups by key, audit); the nested families through `model`"""
     reqs = []
     fam = case['family']
     for r in range(case['rows']):
         V, av = row_view(case, r, shift)
+        if fam in ('logit', 'mev', 'meves'):
+            by_alt = None if av is None else dict(zip(case['alts'], av))
+            avd = None
+            if by_alt is not None:
+                avd = [[a, f2b(by_alt[a])] for a in av_key_order(case) if a not in (case.get('av_drop') or [])]
+                avd += [[a, f2b(av_value(spec, r))] for a, spec in (case.get('av_extra') or [])]
+            q = {'op': 'call', 'kind': fam, 'util': [[a, f2b(v)] for a, v in zip(case['alts'], V)], 'av': avd}
+            if fam in ('mev', 'meves'):
+                q['logG'] = [[a, f2b(util_value(u, case['cols'], r))] for a, u in zip(case['alts'], case['logG'])]
+            if fam == 'meves':
+                q['corr'] = [[a, f2b(util_value(u, case['cols'], r))] for a, u in zip(case['alts'], case['corr'])]
+            reqs.append(q)
+            continue
         q = {'op': 'model', 'kind': fam, 'alts': case['alts'], 'V': [f2b(v) for v in V],
              'av': None if av is None else [f2b(a) for a in av]}
-        if fam == 'mev':
-            q['logG'] = [f2b(util_value(u, case['cols'], r)) for u in case['logG']]
         if 'nests' in case:
             q['nests'] = nests_json(case)
         if 'mu' in case:
@@ -355,20 +458,60 @@ def mk_param(p):
     return Beta(p['name'], float(p['v']), None, None, 1 if p['form'] == 'beta_fixed' else 0)
 
 
+AV_NUM_FORMS = ['int', 'float', 'bool', 'numeric', 'expr']
+AV_COL_FORMS = ['var', 'ne0', 'gt', 'times', 'eq1']
+
+
+def av_key_order(case):
+    """insertion order of the keys of the availability dict (`av_order` when the case has one)"""
+    order = [a for a in (case.get('av_order') or case['alts']) if a in case['alts']]
+    return order + [a for a in case['alts'] if a not in order]
+
+
+def mk_av_entry(a, spec):
+    """one availability in the written form asked by the spec: a plain Python int / float / bool, a
+    Numeric, a constant expression; a Variable or an expression of a 0/1 column.  Every form has the
+    value 0 or 1 of the spec."""
+    from biogeme.expressions import Numeric, Variable
+
+    if spec['k'] == 'num':
+        v = int(spec['v'])
+        form = spec.get('form', 'int')
+        if form == 'int' or v not in (0, 1):
+            return v
+        if form == 'float':
+            return float(v)
+        if form == 'bool':
+            return bool(v)
+        if form == 'numeric':
+            return Numeric(v)
+        return Numeric(1) - Numeric(1 - v)          # a constant expression
+    col = Variable(f'AV{a}')
+    form = spec.get('form', 'var')
+    if form == 'ne0':
+        return col != 0
+    if form == 'gt':
+        return col > 0.5
+    if form == 'times':
+        return col * 1
+    if form == 'eq1':
+        return col == Numeric(1)
+    return col
+
+
 def mk_av(case):
     """the availability dict; its keys are inserted in the order `av_order` when the case has one
     (same keys as the utilities, another insertion order: dictionaries are matched by key)"""
-    from biogeme.expressions import Variable
-
     if case.get('av') is None:
         return None
     by_alt = dict(zip(case['alts'], case['av']))
-    order = [a for a in (case.get('av_order') or case['alts']) if a in by_alt]
-    order += [a for a in case['alts'] if a not in order]
     out = {}
-    for a in order:
-        spec = by_alt[a]
-        out[a] = int(spec['v']) if spec['k'] == 'num' else Variable(f'AV{a}')
+    for a in av_key_order(case):
+        out[a] = mk_av_entry(a, by_alt[a])
+    for a, spec in (case.get('av_extra') or []):      # keys that are no alternative (malformed stream)
+        out[a] = mk_av_entry(a, spec)
+    for a in case.get('av_drop') or []:               # keys removed (malformed stream)
+        out.pop(a, None)
     return out
 
 
@@ -421,12 +564,15 @@ def model_function(family, log):
         ('nestedmu', False): models.nested_mev_mu, ('nestedmu', True): models.lognested_mev_mu,
         ('cnl', False): models.cnl, ('cnl', True): models.logcnl,
         ('cnlmu', False): models.cnlmu, ('cnlmu', True): models.logcnlmu,
+        ('meves', False): models.mev_endogenous_sampling, ('meves', True): models.logmev_endogenous_sampling,
     }[(family, log)]
 
 
-def real_values(case, log=False, shift=0.0, choices=None, python_path=False):
+def real_values(case, log=False, shift=0.0, choices=None, python_path=False, obs=None):
     """evaluate the real model expression for every alternative on every row.
-    → {'ok': {alt: [value per row]}} or {'err': kind, 'msg': …}"""
+    → {'ok': {alt: [value per row]}} or {'err': kind, 'msg': …}.
+    With `obs` (a list) the evaluation goes through `leanrun.observe`: (alt, observation) is appended for
+    every alternative — the real signature text and vectors handed to the engine."""
     _quiet()
     fam = case['family']
     try:
@@ -435,8 +581,10 @@ def real_values(case, log=False, shift=0.0, choices=None, python_path=False):
         av = mk_av(case)
         fn = model_function(fam, log)
         extra = []
-        if fam == 'mev':
+        if fam in ('mev', 'meves'):
             extra = [{a: mk_util(u) for a, u in zip(case['alts'], case['logG'])}]
+        if fam == 'meves':
+            extra.append({a: mk_util(u) for a, u in zip(case['alts'], case['corr'])})
         nests = mk_nests(case) if 'nests' in case else None
         mu = mk_param(case['mu']) if 'mu' in case else None
         out = {}
@@ -445,12 +593,20 @@ def real_values(case, log=False, shift=0.0, choices=None, python_path=False):
                 e = fn(V, av, c)
             elif fam == 'mev':
                 e = fn(V, extra[0], av, c)
+            elif fam == 'meves':
+                e = fn(V, extra[0], av, extra[1], c)
             elif fam in ('nested', 'cnl'):
                 e = fn(V, av, nests, c)
             else:
                 e = fn(V, av, nests, c, mu)
             if python_path:
                 out[c] = [float(e.get_value())]
+            elif obs is not None:
+                o = leanrun.observe(e, d)
+                if 'error' in o:
+                    return {'err': o['error'].split(':')[0], 'msg': o['error']}
+                out[c] = o['values']
+                obs.append((c, o))
             else:
                 v = e.get_value_c(database=d, prepare_ids=True)
                 out[c] = [float(x) for x in v]
@@ -477,6 +633,9 @@ def real_choice_column(case, chosen, log=True):
             e = fn(V, av, ch)
         elif fam == 'mev':
             e = fn(V, {a: mk_util(u) for a, u in zip(case['alts'], case['logG'])}, av, ch)
+        elif fam == 'meves':
+            e = fn(V, {a: mk_util(u) for a, u in zip(case['alts'], case['logG'])}, av,
+                   {a: mk_util(u) for a, u in zip(case['alts'], case['corr'])}, ch)
         elif fam in ('nested', 'cnl'):
             e = fn(V, av, mk_nests(case), ch)
         else:
@@ -486,10 +645,35 @@ def real_choice_column(case, chosen, log=True):
         return {'err': core.exc_kind(e), 'msg': f'{type(e).__name__}: {e}'[:300]}
 
 
-def real_ordered(case):
+def mk_tau(case):
+    """the threshold argument in the written form asked by the case; only a Beta is accepted by the code"""
+    from biogeme.expressions import Beta, Numeric, Variable
+
+    form = case.get('tau_form', 'beta_free')
+    name = case.get('tau_name', 'tau')
+    v = float(case['tau'])
+    if form == 'beta_free':
+        return Beta(name, v, None, None, 0)
+    if form == 'beta_fixed':
+        return Beta(name, v, None, None, 1)
+    if form == 'beta_bounds':
+        return Beta(name, v, v - 10.0, v + 10.0, 0)
+    if form == 'float':
+        return v
+    if form == 'numeric':
+        return Numeric(v)
+    if form == 'variable':
+        return Variable('X0')
+    return Beta(name, v, None, None, 0) + 0
+
+
+def tau_is_beta(case):
+    return case.get('tau_form', 'beta_free') in TAU_FORMS_BETA
+
+
+def real_ordered(case, obs=None):
     _quiet()
     from biogeme import models
-    from biogeme.expressions import Beta
 
     try:
         d = mk_database(case)
@@ -498,14 +682,22 @@ def real_ordered(case):
             from biogeme.expressions import Numeric
 
             x = Numeric(x)
-        tau = Beta('tau', float(case['tau']), None, None, 0)
+        tau = mk_tau(case)
+        name = case.get('tau_name', 'tau')
         fn = models.ordered_logit if case['family'] == 'ordered_logit' else models.ordered_probit
         P = fn(x, list(case['labels']), tau)
-        betas = {f'tau_diff_{l}': float(v) for l, v in case['diffs']}
+        betas = {f'{name}_diff_{l}': float(v) for l, v in case['diffs']}
         out = []
         for k, e in P.items():
-            v = e.get_value_c(database=d, betas=dict(betas), prepare_ids=True)
-            out.append([int(k), [float(t) for t in v]])
+            if obs is not None:
+                o = leanrun.observe(e, d, betas)
+                if 'error' in o:
+                    return {'err': o['error'].split(':')[0], 'msg': o['error']}
+                out.append([int(k), o['values']])
+                obs.append((int(k), o))
+            else:
+                v = e.get_value_c(database=d, betas=dict(betas), prepare_ids=True)
+                out.append([int(k), [float(t) for t in v]])
         return {'ok': out}
     except Exception as e:  # noqa: BLE001
         return {'err': core.exc_kind(e), 'msg': f'{type(e).__name__}: {e}'[:300]}
@@ -516,7 +708,8 @@ def ordered_requests(case):
     for r in range(case['rows']):
         reqs.append({'op': 'ordered', 'cdf': 'logit' if case['family'] == 'ordered_logit' else 'probit',
                      'x': f2b(util_value(case['x'], case['cols'], r)), 'tau': f2b(case['tau']),
-                     'labels': case['labels'], 'diffs': [[l, f2b(v)] for l, v in case['diffs']]})
+                     'labels': case['labels'], 'diffs': [[l, f2b(v)] for l, v in case['diffs']],
+                     'tau_beta': tau_is_beta(case)})
     return reqs
 
 
@@ -636,6 +829,96 @@ def nontrivial(case):
     return False
 
 
+# --------------------------------------------------------------------------- three-way tie
+#
+# For every configuration of the correspondence streams the expression the library BUILT is observed at
+# the boundary to the C++ engine (`leanrun.observe`: the real signature text + parameter vectors + data);
+# that text is read and evaluated by the proved model of the engine (Driver/Formula.lean,
+# C01.engine_reads_text / engine_correct) and the number is compared with (i) the real engine and (ii) the
+# semantic Lean model of this property (Driver/C05.lean).  A disagreement between the library-built
+# formula and the semantic model therefore shows without trusting the C++ engine.
+
+W_TIE = ' (signature text run by the engine model)'
+T_3WAY = 'three-way: real engine = engine model on the library-built text = semantic model (values)'
+T_TEXT = 'leanrun: real engine = engine model on the real text (values)'
+T_LOG0 = 'leanrun: log(0) of an unavailable chosen alternative (engine model: outside the domain)'
+T_ZINF = 'leanrun: 0*inf inside Times (short-circuit of the real engine, not in the shared engine model)'
+
+
+class Tie:
+    def __init__(self, budget=10 ** 9):
+        self.items = []
+        self.budget = budget          # formulas run by the engine model (about 20 ms each)
+
+    def open(self):
+        return len(self.items) < self.budget
+
+    def add(self, case, tag, pairs, holder):
+        for key, o in pairs:
+            self.items.append((case, tag, key, o, holder))
+
+    def run(self, res):
+        obs = [it[3] for it in self.items]
+        vals = []
+        for i in range(0, len(obs), 400):
+            vals += leanrun.lean_values(obs[i:i + 400])
+        for (case, tag, key, o, holder), lv in zip(self.items, vals):
+            holder[(tag, key)] = lv
+            engine_vs_text(res, case, tag, key, o, lv)
+        self.items = []
+
+
+_TIE = None
+
+
+def engine_vs_text(res, case, tag, key, o, lv):
+    """the real engine against the engine model run on the same real text"""
+    fam = case['family']
+    where = f'models.{fam}' + W_TIE
+    if lv is None:
+        res.diverge(f'{fam}: nothing was handed to the engine for {tag} of {key}', case, None, o.get('values'), where=where)
+        return
+    if isinstance(lv, tuple):
+        res.diverge(f"{fam}: the text handed to the engine for {tag} of {key} is not readable by the model of the engine's reader ({lv[1]})",
+                    case, list(lv), o['signature'][-1:], where=where)
+        return
+    for r, (a, b) in enumerate(zip(o['values'], lv)):
+        if isinstance(b, tuple):
+            if b[1] == 'domain' and (a == -math.inf or (tag != 'logp' and a == 0.0)):
+                res.tally(T_LOG0)
+                continue
+            res.diverge(f'{fam}: {tag} of {key}, row {r}: the engine model refuses ({b[1]}) the text on which the real engine returns a number',
+                        case, list(b), a, where=where)
+            return
+        if b != b and a == a and fam in ('cnl', 'cnlmu'):
+            res.tally(T_ZINF)
+            continue
+        if not is_close(a, b):
+            res.diverge(f'{fam}: {tag} of {key}, row {r}: real engine vs the real signature text run by the engine model', case, b, a, where=where)
+            return
+        res.tally(T_TEXT)
+
+
+def text_vs_model(res, case, tag, key, r, lv, mv, rv, where):
+    """the library-built formula (engine model on its real text) against the semantic model; → False when they differ"""
+    if lv is None or isinstance(lv, tuple) or r >= len(lv):
+        return True
+    b = lv[r]
+    if isinstance(b, tuple):
+        ok = b[1] == 'domain' and (mv == -math.inf or (tag != 'logp' and mv == 0.0))
+    elif b != b and mv == mv:
+        return True       # tallied by engine_vs_text
+    else:
+        ok = is_close(b, mv)
+    if not ok:
+        res.diverge(f"{case['family']}: {tag} of {key}, row {r}: the formula the library built (its real signature text run by the engine model) "
+                    'differs from the semantic model', case, mv, list(b) if isinstance(b, tuple) else b, where=where + W_TIE)
+        return False
+    if rv is not None and (is_close(rv, mv) or (rv == mv)):
+        res.tally(T_3WAY)
+    return True
+
+
 # --------------------------------------------------------------------------- one configuration
 
 
@@ -655,8 +938,24 @@ def check_config(ctx, res, case, shift_c=None, with_model=True):
     if case.get('av') is None:
         res.tally('av=None')
     res.count(case, nontrivial=nontrivial(case))
-    rp = real_values(case)
-    rl = real_values(case, log=True)
+    tie = _TIE if with_model and _TIE is not None and _TIE.open() else None
+    obs_p, obs_l, holder = ([] if tie else None), ([] if tie else None), {}
+    rp = real_values(case, obs=obs_p)
+    rl = real_values(case, log=True, obs=obs_l)
+    if tie:
+        # the log version for every alternative; the probability version (exp of the same kernel, built by
+        # another function of the library) for the first and the last alternative
+        pick = lambda l: l if len(l) <= 4 else l[:2] + l[-2:]      # noqa: E731
+        tie.add(case, 'p', (pick(obs_p)[:1] + pick(obs_p)[-1:]) if len(obs_p) > 1 else obs_p, holder)
+        tie.add(case, 'logp', pick(obs_l), holder)
+        for sp in case.get('av') or []:
+            res.tally(f"av form={sp.get('form', 'int' if sp['k'] == 'num' else 'var')}")
+        if case.get('singleton'):
+            res.tally('one-alternative nest')
+        if 'mu' in case:
+            res.tally(f"scale mu form={case['mu']['form']}")
+        if case.get('av_order') and case['av_order'] != case['alts']:
+            res.tally('availability dict in another key order')
     if 'err' in rp or 'err' in rl:
         res.violate(f"{fam}: the model function raises on a valid specification: {rp.get('msg') or rl.get('msg')}",
                     case, rp.get('msg') or rl.get('msg'), 'a probability for every alternative', where=where_of(case))
@@ -666,7 +965,7 @@ def check_config(ctx, res, case, shift_c=None, with_model=True):
         res.violate(f'{fam}: {what}', case, {'observed': obs, 'p': fmt(p)}, exp, where=where_of(case))
     for what, obs, exp in oracle_log(case, p, lp):
         res.violate(f'{fam}: {what}', case, obs, exp, where=where_of(case) + ' (log version)')
-    if fam != 'mev' and shift_c is not None:
+    if fam not in ('mev', 'meves') and shift_c is not None:
         rs = real_values(case, shift=shift_c)
         if 'err' in rs:
             res.violate(f'{fam}: raises after a shift of the utilities: {rs["msg"]}', case, rs['msg'], 'same probabilities', where=where_of(case))
@@ -674,7 +973,7 @@ def check_config(ctx, res, case, shift_c=None, with_model=True):
             for what, obs, exp in oracle_shift(case, p, rs['ok'], shift_c):
                 res.violate(f'{fam}: {what}', {**case, 'shift': shift_c}, obs, exp, where=where_of(case) + ' (shift)')
     # unavailable alternatives are irrelevant: dropping them from the specification changes nothing
-    if fam != 'mev' and case.get('av') is not None:
+    if fam not in ('mev', 'meves') and case.get('av') is not None:
         for r in range(case['rows']):
             c1 = restrict_to_row(case, r)
             c2 = drop_unavailable(c1)
@@ -712,14 +1011,97 @@ def check_config(ctx, res, case, shift_c=None, with_model=True):
     if with_model:
         reqs = model_requests(case)
 
-        def cb(ans, case=case, p=p, lp=lp):
-            compare_model(res, case, ans, p, lp)
+        def cb(ans, case=case, p=p, lp=lp, holder=holder):
+            compare_model(res, case, ans, p, lp, holder)
 
         ctx.batch.add_many(reqs, cb)
+        if tie and fam in LOGG_BUILDERS and ctx.rng.random() < 0.4:
+            check_logG_builders(ctx, res, case, tie)
     return p, lp
 
 
-def compare_model(res, case, ans, p, lp):
+LOGG_BUILDERS = {'nested': 'get_mev_for_nested', 'nestedmu': 'get_mev_for_nested_mu',
+                 'cnl': 'get_mev_for_cross_nested', 'cnlmu': 'get_mev_for_cross_nested_mu'}
+
+
+def real_logG(case, obs):
+    """the public `ln G_i` builder of the family called on the specification; every expression it returns
+    for an available alternative is evaluated on its own (observed at the boundary to the engine)"""
+    _quiet()
+    from biogeme import models
+    from biogeme.expressions import Numeric
+
+    fam = case['family']
+    try:
+        d = mk_database(case)
+        V = {a: mk_util(u) for a, u in zip(case['alts'], case['util'])}
+        av = mk_av(case)
+        nests = mk_nests(case)
+        fn = getattr(models, LOGG_BUILDERS[fam])
+        lg = fn(V, av, nests, mk_param(case['mu'])) if 'mu' in case else fn(V, av, nests)
+        out = {}
+        _, avv = row_view(case, 0)
+        for i, a in enumerate(case['alts']):
+            if a not in lg or (avv is not None and avv[i] == 0):
+                continue
+            e = lg[a]
+            if not hasattr(e, 'get_value_c'):
+                e = Numeric(e)
+            o = leanrun.observe(e, d)
+            if 'error' in o:
+                return {'err': o['error'].split(':')[0], 'msg': o['error']}
+            out[a] = o['values']
+            obs.append((a, o))
+        return {'ok': out, 'keys': sorted(int(k) for k in lg)}
+    except Exception as e:  # noqa: BLE001
+        return {'err': core.exc_kind(e), 'msg': f'{type(e).__name__}: {e}'[:300]}
+
+
+def check_logG_builders(ctx, res, case, tie):
+    """get_mev_for_nested / _mu / get_mev_for_cross_nested / _mu as entry points of their own, on one row with
+    constant availabilities: a term for every alternative, and its value three ways"""
+    fam = case['family']
+    c1 = restrict_to_row(case, 0)
+    obs, holder = [], {}
+    rg = real_logG(c1, obs)
+    name = LOGG_BUILDERS[fam]
+    where = f'models.{name}'
+    res.tally(f'ln G_i builder called directly: {name}')
+    if 'err' in rg:
+        res.violate(f'{name}: raises on a specification the model function accepts: {rg["msg"]}', c1, rg['msg'], 'ln G_i for every alternative', where=where)
+        return
+    if rg['keys'] != sorted(case['alts']):
+        res.violate(f'{name}: the returned dictionary does not have one term per alternative', c1, rg['keys'], sorted(case['alts']), where=where)
+        return
+    tie.add(c1, 'lnG', obs, holder)
+
+    def cb(ans, c1=c1, rg=rg, holder=holder):
+        a = ans[0]
+        if 'error' in a:
+            res.diverge(f'{name}: the model refuses ({a["error"]}) what the code accepts', c1, a, fmt(rg['ok']), where=where)
+            return
+        for alt, x in zip(c1['alts'], a['logG']):
+            if alt not in rg['ok'] or x is None:
+                continue
+            mv, rv = b2f(x), rg['ok'][alt][0]
+            if not (is_close(mv, rv) or (mv != mv and rv != rv)):
+                res.diverge(f'{name}: ln G_i of alternative {alt}', c1, mv, rv, where=where)
+                return
+            if not text_vs_model(res, c1, 'lnG', alt, 0, holder.get(('lnG', alt)), mv, rv, where):
+                return
+
+    ctx.batch.add_many(model_requests(c1)[:1], cb)
+
+
+def check_config_full(ctx, res, case, shift_c=None, with_model=True):
+    """check_config + the relations that are specific to a family"""
+    out = check_config(ctx, res, case, shift_c=shift_c, with_model=with_model)
+    if case['family'] == 'meves' and out is not None:
+        check_es_relations(ctx, res, case, out[0])
+    return out
+
+
+def compare_model(res, case, ans, p, lp, holder=None):
     fam = case['family']
     for r, a in enumerate(ans):
         if 'error' in a:
@@ -734,23 +1116,34 @@ def compare_model(res, case, ans, p, lp):
             if lp is not None and not is_close(ml[i], lp[alt][r]):
                 res.diverge(f'{fam}: log probability of alternative {alt}, row {r}', case, ml[i], lp[alt][r], where=where_of(case))
                 return
+            if holder:
+                if not text_vs_model(res, case, 'p', alt, r, holder.get(('p', alt)), mp[i], p[alt][r], where_of(case)):
+                    return
+                if lp is not None and not text_vs_model(res, case, 'logp', alt, r, holder.get(('logp', alt)), ml[i], lp[alt][r], where_of(case)):
+                    return
 
 
 def check_ordered(ctx, res, case, with_model=True):
     fam = case['family']
     res.tally(f'family={fam}')
     res.tally(f"values={len(case['labels'])}")
+    res.tally(f"tau form={case.get('tau_form', 'beta_free')}")
     res.count(case, nontrivial=len(case['labels']) >= 3)
-    rr = real_ordered(case)
+    tie = _TIE if with_model and _TIE is not None and _TIE.open() else None
+    obs, holder = ([] if tie else None), {}
+    rr = real_ordered(case, obs=obs)
+    if tie:
+        tie.add(case, 'p', obs, holder)
     single = len(case['labels']) < 2
+    refused = single or not tau_is_beta(case)
     where = W_ORDERED_ONE if single else f'models.{fam}'
     if 'err' in rr:
-        if single and rr['err'] == 'BiogemeError':
-            # fewer than two discrete values: refusing is the repaired behaviour (what the model does)
+        if refused and rr['err'] == 'BiogemeError':
+            # fewer than two discrete values (repaired behaviour) / a threshold that is not a Beta: refused, as the model does
             if with_model:
                 def cb_err(ans, case=case):
                     if ans[0].get('error') != 'BiogemeError':
-                        res.diverge(f'{fam}: fewer than two discrete values', case, ans[0], 'BiogemeError', where=where)
+                        res.diverge(f'{fam}: refused by the code ({rr["msg"][:80]})', case, ans[0], 'BiogemeError', where=where)
 
                 ctx.batch.add_many(ordered_requests(case)[:1], cb_err)
             return
@@ -759,8 +1152,12 @@ def check_ordered(ctx, res, case, with_model=True):
     d = rr['ok']
     for r in range(case['rows']):
         vals = [v[r] for _, v in d]
+        # the compiled engine's bioNormalCdf returns 1 + Q(x) instead of 1 - Q(x) for x >= 6 (cythonbiogeme
+        # bioNormalCdf.cc: `1.0 - tqa` with tqa < 0): Phi exceeds 1 by at most Q(6) = 9.87e-10 there, so a probit
+        # probability may be that much below 0; the range of the probit is checked up to the stated tolerance
+        slack = TOL if fam == 'ordered_probit' else 1e-12
         for (k, _), v in zip(d, vals):
-            if math.isnan(v) or not (-1e-12 <= v <= 1 + 1e-12):
+            if math.isnan(v) or not (-slack <= v <= 1 + slack):
                 res.violate(f'{fam}: row {r}: probability of value {k} outside [0,1]', case, v, '[0,1]', where=where)
         s = math.fsum(vals)
         if not is_close(s, 1.0):
@@ -769,7 +1166,7 @@ def check_ordered(ctx, res, case, with_model=True):
     if sorted(k for k, _ in d) != sorted(case['labels']):
         res.violate(f'{fam}: keys of the result differ from the discrete values', case, [k for k, _ in d], case['labels'], where=where)
     if with_model:
-        def cb(ans, case=case, d=d):
+        def cb(ans, case=case, d=d, holder=holder):
             for r, a in enumerate(ans):
                 if 'error' in a:
                     res.diverge(f'{fam}: the model refuses ({a["error"]})', case, a, d, where=where)
@@ -782,8 +1179,73 @@ def check_ordered(ctx, res, case, with_model=True):
                     if not is_close(mv, rv[r]):
                         res.diverge(f'{fam}: probability of value {k}, row {r}', case, mv, rv[r], where=where)
                         return
+                    if holder and not text_vs_model(res, case, 'p', k, r, holder.get(('p', k)), mv, rv[r], where):
+                        return
 
         ctx.batch.add_many(ordered_requests(case), cb)
+
+
+# --------------------------------------------------------------------------- endogenous sampling: relations on the real outputs
+
+
+def check_es_relations(ctx, res, case, p):
+    """`mev_endogenous_sampling` against `mev` on the same specification (both real):
+    P^ES_i = P_i exp(w_i) / sum_j P_j exp(w_j); in particular no / a constant correction changes nothing"""
+    base = {k: v for k, v in case.items() if k not in ('corr', 'corr_mode')}
+    base['family'] = 'mev'
+    rb = real_values(base)
+    where = 'models.mev_endogenous_sampling (relation with models.mev)'
+    res.tally(f"endogenous sampling: correction={case.get('corr_mode', 'any')}")
+    if 'err' in rb:
+        res.violate(f'mev raises where mev_endogenous_sampling answers: {rb["msg"]}', case, rb['msg'], 'a probability', where=where)
+        return
+    pb = rb['ok']
+    for r in range(case['rows']):
+        w = [util_value(u, case['cols'], r) for u in case['corr']]
+        num = [pb[a][r] * math.exp(x) for a, x in zip(case['alts'], w)]
+        tot = math.fsum(num)
+        if tot <= 0:
+            continue
+        for a, x in zip(case['alts'], num):
+            if not is_close(p[a][r], x / tot):
+                res.violate(f'meves: row {r}: probability of alternative {a} is not the MEV probability reweighted by exp(correction)',
+                            case, p[a][r], x / tot, where=where)
+                return
+
+
+# --------------------------------------------------------------------------- key sets of the two dictionaries
+
+
+def gen_av_keys(rng):
+    """an availability dict whose key set differs from the one of the utilities (an extra key, a key
+    missing): refused when the expression is evaluated (audit), never silently completed"""
+    case = decorate(rng, gen_case(rng, rng.choice(['logit', 'logit', 'mev', 'meves']), k=rng.randint(2, 5)))
+    if case.get('av') is None:
+        case['av'] = [{'k': 'num', 'v': 1, 'form': rng.choice(AV_NUM_FORMS)} for _ in case['alts']]
+    kind = rng.choice(['extra', 'missing', 'both'])
+    if kind in ('extra', 'both'):
+        case['av_extra'] = [[max(case['alts']) + rng.randint(1, 3), {'k': 'num', 'v': rng.randint(0, 1)}]]
+    if kind in ('missing', 'both'):
+        case['av_drop'] = [rng.choice(case['alts'])]
+    case['av_keys'] = kind
+    return case
+
+
+def check_av_keys(ctx, res, case):
+    fam = case['family']
+    res.tally(f"availability keys={case['av_keys']}")
+    res.count(case, nontrivial=True)
+    rp = real_values(case, choices=case['alts'][:1], log=True)
+    got = rp.get('err', 'ok')
+
+    def cb(ans, case=case, got=got, rp=rp):
+        exp = ans[0].get('error', 'ok')
+        if exp != got:
+            res.diverge(f'{fam}: outcome when the availability dict has other keys than the utilities ({case["av_keys"]})',
+                        case, exp, rp.get('msg', got), where=where_of(case))
+
+    # correspondence only: the property says nothing about a dictionary with other keys, the model says `refused`
+    ctx.batch.add_many(model_requests(case)[:1], cb)
 
 
 # --------------------------------------------------------------------------- malformed stream
@@ -942,7 +1404,10 @@ def gen_structure(rng, family, kind=None):
         for _ in range(rng.choice([1, 1, 2])):
             i, j = rng.sample(range(nn), 2)
             x = rng.choice(n['list'][i]['alts'])
-            if x not in n['list'][j]['alts']:
+            if rng.random() < 0.3:
+                # the alternative is written again in a nest of its own (two one-alternative nests may share it)
+                n['list'].insert(rng.randint(0, len(n['list'])), {'mu': gen_param(rng, 1, 5, f"mu_o{len(n['list'])}"), 'alts': [x]})
+            elif x not in n['list'][j]['alts']:
                 n['list'][j]['alts'].insert(rng.randint(0, len(n['list'][j]['alts'])), x)
     elif kind == 'outside':
         m = rng.choice(n['list'])
@@ -955,7 +1420,7 @@ def gen_structure(rng, family, kind=None):
         kind = 'valid'
     case['stream'] = 'nest_orders'
     case['structure'] = kind
-    case['orders'] = gen_orders(rng, nn)
+    case['orders'] = gen_orders(rng, len(n['list']))
     return case
 
 
@@ -1261,6 +1726,10 @@ CORPUS += [
                'list': [{'mu': {'v': 1.625, 'form': 'num', 'name': 'ma'}, 'alts': [1, 2]}, {'mu': {'v': 2.75, 'form': 'num', 'name': 'mb'}, 'alts': [4, 5]}]}},
 ]
 CORPUS_ORDERED = [
+    # x - tau = 6.203125 >= 6: the engine's Phi is 1 + 2.8e-10 there (first probability -2.8e-10, within the tolerance)
+    {'family': 'ordered_probit', 'labels': [25, -2, 12], 'rows': 2, 'cols': {'X0': [-0.46875, -1.015625], 'X1': [-1.296875, 1.75], 'X2': [1.0, 0.859375]},
+     'x': {'k': 'lin', 'b': -2.0, 'name': 'b_x', 'fixed': 0, 'col': 'X1', 'c': 1.8125}, 'tau': -1.796875, 'diffs': [[-2, 0.703125]],
+     'tau_form': 'beta_fixed', 'tau_name': 'tau'},
     {'family': 'ordered_probit', 'labels': [1, 2, 5, 9], 'rows': 2, 'cols': {'X0': [0.15, -1.0], 'X1': [0.0, 0.0], 'X2': [0.0, 0.0]},
      'x': {'k': 'lin', 'b': 2.0, 'name': 'b_x', 'fixed': 0, 'col': 'X0', 'c': 0.0}, 'tau': -0.5, 'diffs': [[2, 0.75], [5, 1.0]]},
 ]
@@ -1307,45 +1776,66 @@ CORPUS_FINDINGS = [
 
 
 def check(ctx) -> Result:
+    global _TIE
     res = Result(rule=RULE, tolerance=f'|a-b| <= {TOL} * max(1,|a|,|b|); -inf/NaN must agree in class')
     rng = ctx.rng
-    with core.scratch():
-        for c in CORPUS:
-            check_config(ctx, res, c, shift_c=1.75)
-            res.tally('corpus')
-        for c in CORPUS_ORDERED:
-            check_ordered(ctx, res, c)
-            res.tally('corpus')
-        check_python_path(ctx, res, CORPUS_FINDINGS[0])
-        check_ordered(ctx, res, CORPUS_FINDINGS[1])
-        for c in CORPUS_ORDERS:
-            check_nest_orders(ctx, res, c)
-            res.tally('corpus')
-        for _ in range(ctx.n(10, 90)):
-            for fam in ('nested', 'nestedmu', 'nested', 'cnl', 'cnlmu'):
-                check_nest_orders(ctx, res, gen_structure(rng, fam))
-            if len(res.violations) > 20:
-                break
-        n = ctx.n(40, 800)
-        for _ in range(n):
-            for fam in FAMILIES:
-                case = gen_case(rng, fam)
-                check_config(ctx, res, case, shift_c=rng.choice([dyadic(rng, -4, 4), 1.5, -2.25]))
-            if len(res.violations) > 20:
-                break
-        for _ in range(ctx.n(30, 1500)):
-            check_ordered(ctx, res, gen_ordered(rng, rng.choice(ORDERED)))
-        for _ in range(ctx.n(24, 400)):
-            check_malformed(ctx, res, gen_malformed(rng, rng.choice(['nested', 'nestedmu', 'cnl', 'cnlmu'])))
-        for _ in range(ctx.n(20, 400)):
-            check_odd(ctx, res, gen_odd(rng))
-        for _ in range(ctx.n(10, 200)):
-            case = gen_python_path(rng)
-            # the shape of finding F-C05-1 (unavailable chosen alternative on the Python path) is kept out of
-            # the main stream: only available alternatives are asked there
-            case['av'] = [{'k': 'num', 'v': 1} for _ in case['alts']] if rng.random() < 0.3 else case['av']
-            check_python_path_available_only(ctx, res, case)
-        ctx.batch.flush()
+    _TIE = Tie(budget=ctx.n(2000, 6000))
+    import os, sys, time
+    t0 = time.time()
+
+    def lap(what):
+        if os.environ.get('C05_TIMING'):
+            print(f'[c05 {time.time() - t0:6.1f}s] {what}', file=sys.stderr)
+
+    try:
+        with core.scratch():
+            for c in CORPUS:
+                check_config(ctx, res, c, shift_c=1.75)
+                res.tally('corpus')
+            for c in CORPUS_ORDERED:
+                check_ordered(ctx, res, c)
+                res.tally('corpus')
+            check_python_path(ctx, res, CORPUS_FINDINGS[0])
+            check_ordered(ctx, res, CORPUS_FINDINGS[1])
+            for c in CORPUS_ORDERS:
+                check_nest_orders(ctx, res, c)
+                res.tally('corpus')
+            for _ in range(ctx.n(8, 50)):
+                for fam in ('nested', 'nestedmu', 'nested', 'cnl', 'cnlmu'):
+                    check_nest_orders(ctx, res, gen_structure(rng, fam))
+                if len(res.violations) > 20:
+                    break
+            lap('corpus + nest orders')
+            n = ctx.n(24, 220)
+            for _ in range(n):
+                for fam in FAMILIES_R3:
+                    case = gen_case3(rng, fam)
+                    check_config_full(ctx, res, case, shift_c=rng.choice([dyadic(rng, -4, 4), 1.5, -2.25]))
+                if len(res.violations) > 20:
+                    break
+            lap('main stream')
+            for _ in range(ctx.n(30, 1500)):
+                check_ordered(ctx, res, gen_ordered(rng, rng.choice(ORDERED)))
+            lap('ordered')
+            for _ in range(ctx.n(24, 400)):
+                check_malformed(ctx, res, gen_malformed(rng, rng.choice(['nested', 'nestedmu', 'cnl', 'cnlmu'])))
+            for _ in range(ctx.n(12, 200)):
+                check_av_keys(ctx, res, gen_av_keys(rng))
+            for _ in range(ctx.n(20, 400)):
+                check_odd(ctx, res, gen_odd(rng))
+            for _ in range(ctx.n(10, 200)):
+                case = gen_python_path(rng)
+                # the shape of finding F-C05-1 (unavailable chosen alternative on the Python path) is kept out of
+                # the main stream: only available alternatives are asked there
+                case['av'] = [{'k': 'num', 'v': 1} for _ in case['alts']] if rng.random() < 0.3 else case['av']
+                check_python_path_available_only(ctx, res, case)
+            lap('other streams')
+            _TIE.run(res)
+            lap(f'engine model on the real texts')
+            ctx.batch.flush()
+            lap('semantic model')
+    finally:
+        _TIE = None
     return res
 
 
@@ -1376,13 +1866,13 @@ def search(ctx, res, broken):
             c = d.get('case')
             if isinstance(c, dict) and c.get('stream') == 'nest_orders':
                 check_nest_orders(ctx, r2, {**c, 'orders': c.get('orders') or gen_orders(rng, len(c['nests']['list']))}, with_model=False)
-            elif isinstance(c, dict) and c.get('family') in FAMILIES and 'malformed' not in c:
-                check_config(ctx, r2, c, shift_c=1.5, with_model=False)
+            elif isinstance(c, dict) and c.get('family') in FAMILIES_R3 and 'malformed' not in c and 'av_keys' not in c:
+                check_config_full(ctx, r2, c, shift_c=1.5, with_model=False)
         for i in range(60):
             if r2.violations:
                 break
-            for fam in FAMILIES:
-                check_config(ctx, r2, gen_case(rng, fam), shift_c=dyadic(rng, -4, 4) or 1.0, with_model=False)
+            for fam in FAMILIES_R3:
+                check_config_full(ctx, r2, gen_case3(rng, fam), shift_c=dyadic(rng, -4, 4) or 1.0, with_model=False)
             check_ordered(ctx, r2, gen_ordered(rng, rng.choice(ORDERED)), with_model=False)
             for fam in ('nested', 'nestedmu', 'cnl', 'cnlmu'):
                 check_nest_orders(ctx, r2, gen_structure(rng, fam), with_model=False)
@@ -1409,9 +1899,9 @@ def replay(ctx, obj):
             import itertools
             orders = [list(q) for q in itertools.permutations(ident)] if nn <= 4 else gen_orders(core.rng_for('C05-replay', 0), nn)
             check_nest_orders(ctx, r, {**case, 'orders': orders, 'all_orders': True}, with_model=False)
-        elif case.get('family') in FAMILIES and 'malformed' not in case:
+        elif case.get('family') in FAMILIES_R3 and 'malformed' not in case and 'av_keys' not in case:
             sc = case.pop('shift', 1.5)
-            check_config(ctx, r, case, shift_c=sc, with_model=False)
+            check_config_full(ctx, r, case, shift_c=sc, with_model=False)
         else:
             out.update({'property_fails': False, 'note': 'nothing to replay (no concrete failing input in this file)'})
             return out
